@@ -407,6 +407,15 @@ def _site_of(case, impl):
     if case.mode == "walk":
         st = impl[1][0].decode("latin1") if impl[0] == "OK" and impl[1] else "%s %s" % (impl[0], impl[1])
         detail = impl[1][2].decode("latin1") if impl[0] == "OK" and len(impl[1]) > 2 else ""
+        # append the panic message to each `site@call` line (field 4: site TAB message): findings are matched on file + message
+        msgs = {}
+        if impl[0] == "OK" and len(impl[1]) > 4:
+            for l in impl[1][4].decode("latin1").split("\n"):
+                if "\t" in l:
+                    k, v = l.split("\t", 1)
+                    msgs.setdefault(k, v)
+        detail = "\n".join((l + " :: " + msgs.get(l.split("@", 1)[0], "")) if "@" in l and not l.startswith(("ABORT", "TIMEOUT")) else l
+                           for l in detail.split("\n"))
         return st, detail
     return "%s %s" % (impl[0], impl[1]), ""
 
